@@ -42,7 +42,8 @@ def witnesses(reg, pull):
             for y in ys + [y1 + (y2 - y1) * 0.3, y1 + (y2 - y1) * 0.75]:
                 pts.append((x, y))
     else:
-        cx, cy, r = reg["cx"], reg["cy"], reg["r"]
+        cx, cy, r = reg["cx"], reg["cy"], abs(reg["r"])   # a negative radius excludes nothing; should a change
+        #                                                    make it exclude the disc |r|, these are its points
         pts.append((cx, cy))
         if r > 0:
             rr = max(r - pull, 0.0)
@@ -82,8 +83,8 @@ class ApiWorld(object):
         self.plugin = seams.make_plugin(cfg.get("log", "off"))
         self.bus = SimBus(self.plugin, on_deliver=self.on_deliver)
         self.life = LifecycleModel()
-        self.life.clear_after = bool(seams.SETTINGS.get(["plugins", "excluderegion", "clearRegionsAfterPrintFinishes"]))
-        self.life.may_shrink = bool(seams.SETTINGS.get(["plugins", "excluderegion", "mayShrinkRegionsWhilePrinting"]))
+        self.life.clear_after = bool(self.plugin._settings.get_boolean(["clearRegionsAfterPrintFinishes"]))
+        self.life.may_shrink = bool(self.plugin._settings.get_boolean(["mayShrinkRegionsWhilePrinting"]))
         self.model = []          # registry model: list of normalised dicts
         self.msgs_seen = len(self.plugin._plugin_manager.messages)
         self.viol = None
@@ -124,10 +125,9 @@ class ApiWorld(object):
     def on_deliver(self, ev, exc):
         before = [dict(r) for r in self.model]
         if ev == Events.SETTINGS_UPDATED:
-            self.life.clear_after = bool(seams.SETTINGS.get(
-                ["plugins", "excluderegion", "clearRegionsAfterPrintFinishes"]))
-            self.life.may_shrink = bool(seams.SETTINGS.get(
-                ["plugins", "excluderegion", "mayShrinkRegionsWhilePrinting"]))
+            # the stored flags as the host itself reads a boolean setting ("false", "no", 0 ... are off)
+            self.life.clear_after = bool(self.plugin._settings.get_boolean(["clearRegionsAfterPrintFinishes"]))
+            self.life.may_shrink = bool(self.plugin._settings.get_boolean(["mayShrinkRegionsWhilePrinting"]))
         if self.life.on_event(ev) == "cleared":
             self.model = []
             self.stats["probe:cleared_by_" + ev] += 1
